@@ -1238,6 +1238,11 @@ class CryptographyEngine(api.CryptographicEngine):
                 derived_data = df.derive(key_material)
                 return derived_data
             elif derivation_method == enums.DerivationMethod.NIST800_108_C:
+                if derivation_data is None:
+                    raise exceptions.InvalidField(
+                        "Derivation data is required for NIST 800-108 "
+                        "counter mode key derivation."
+                    )
                 df = kbkdf.KBKDFHMAC(
                     algorithm=hashing_algorithm(),
                     mode=kbkdf.Mode.CounterMode,
